@@ -37,6 +37,11 @@ import (
 // LoopCase is a script for RunLoop.
 type LoopCase struct {
 	In B `json:"in"`
+	// Tail (optional): text appended after In that is the beginning of one more command and ends
+	// inside an unterminated double-quoted argument (In then ends with a newline and contains no
+	// take command). Splitting it "terminates with ... an error"; the loop must hand that error to
+	// its caller - returned or recorded on the scope - exactly as it does for an unknown command.
+	Tail B `json:"tail,omitempty"`
 }
 
 // loopEvent is one executed command as observed (or as the model predicts).
@@ -364,6 +369,21 @@ func sameStrings(a, b []string) bool {
 func ExecLoop(c LoopCase) hx.Verdict {
 	in := string(c.In)
 	want, unknown, end, ok := loopModel(in)
+	badTail := len(c.Tail) > 0
+	if ok && badTail {
+		// the tail must start a fresh command and be what it claims to be
+		t := string(c.Tail)
+		_, tailGood := refCommand(in+t, len(in))
+		ok = !unknown && end == len(in) && (in == "" || strings.HasSuffix(in, "\n")) && !tailGood &&
+			strings.Count(t, "\"") == 1 && !strings.Contains(t, "\\") && !strings.Contains(t, "<<")
+		for _, e := range want {
+			if e.Cmd == "take" {
+				ok = false
+			}
+		}
+		in += t
+		end = len(in)
+	}
 	if !ok {
 		v := hx.Pass()
 		v.Inconclusive = true
@@ -405,7 +425,11 @@ func ExecLoop(c LoopCase) hx.Verdict {
 				return fail(i, "loop-payload", "command %d read %q / args %q (err=%v) from the shared input, expected %q / %q", i, g.Payload, g.PArgs, g.PErr, w.Payload, w.PArgs)
 			}
 		}
-		if unknown != (loopErr != nil || scopeErrs > 0) {
+		if badTail {
+			if loopErr == nil && scopeErrs == 0 {
+				return fail(len(got), "loop-syntax-error-surfaced", "the input ends inside an unterminated quoted argument (%q): the loop neither returned an error nor recorded one on its scope", string(c.Tail))
+			}
+		} else if unknown != (loopErr != nil || scopeErrs > 0) {
 			return fail(len(got), "loop-unknown-command", "loop error %v, %d scope errors; the model has unknown command = %v", loopErr, scopeErrs, unknown)
 		}
 		if consumed != end {
@@ -444,6 +468,9 @@ func ExecLoop(c LoopCase) hx.Verdict {
 	}
 	if unknown {
 		labels["loop-unknown-command"] = true
+	}
+	if badTail {
+		labels["loop-input-ends-inside-quote"] = true
 	}
 	if strings.Contains(in, "\\\n") {
 		labels["loop-continuation"] = true
